@@ -215,4 +215,108 @@ theorem verify_rel (H : List ByteArray → Int) (m : OvfMode) (common : List Str
   rw [forall₂_length hp.proofs, forall₂_length hvs, allPairsConsistent_rel hp.proofs hvs,
     hp.cHash, hp.cList, verifyLoop_rel m common p'.cHash hp.proofs hvs []]
 
+
+/-! ## several credentials under one challenge: `proveMulti` -/
+
+structure CredInRel (R : G → G' → Prop) (c : CredIn G) (c' : CredIn G') : Prop where
+  o : OpsRel R c.o c'.o
+  pk : PKRel R c.pk c'.pk
+  sig : SigRel R c.sig c'.sig
+  unrevealed : c.unrevealed = c'.unrevealed
+  revealed : c.revealed = c'.revealed
+  preds : c.preds = c'.preds
+  vals : c.vals = c'.vals
+  m2Tilde : c.m2Tilde = c'.m2Tilde
+  tp : c.tp = c'.tp
+
+/-- relation on the first messages of one sub-proof -/
+def InitRel (R : G → G' → Prop) (x : EqInit G × List (NeInit G)) (y : EqInit G' × List (NeInit G')) :
+    Prop := EqInitRel R x.1 y.1 ∧ List.Forall₂ (NeInitRel R) x.2 y.2
+
+theorem initAll_rel (m : OvfMode) (fourSq : Int → Outcome (List Int)) (common : List (String × Int)) :
+    ∀ {cs : List (CredIn G)} {cs' : List (CredIn G')}, List.Forall₂ (CredInRel R) cs cs' →
+      ORel (List.Forall₂ (InitRel R)) (initAll m fourSq common cs) (initAll m fourSq common cs') := by
+  intro cs cs' h
+  induction h with
+  | nil => exact List.Forall₂.nil
+  | @cons c c' l l' hc _ ih =>
+    simp only [initAll]
+    rw [hc.unrevealed, hc.m2Tilde, hc.tp, hc.vals, hc.preds]
+    refine ORel.bind (initEqProof_rel hc.o common hc.pk hc.sig _ _ _) fun e e' he => ?_
+    rw [he.mTilde]
+    refine ORel.bind (initPreds_rel hc.o m fourSq hc.pk _ _ _) fun ns ns' hns => ?_
+    exact ORel.map ih fun r r' hr => List.Forall₂.cons ⟨he, hns⟩ hr
+
+theorem tauBytes_rel : ∀ {cs : List (CredIn G)} {cs' : List (CredIn G')},
+    List.Forall₂ (CredInRel R) cs cs' →
+    ∀ {is : List (EqInit G × List (NeInit G))} {is' : List (EqInit G' × List (NeInit G'))},
+    List.Forall₂ (InitRel R) is is' → tauBytes cs is = tauBytes cs' is' := by
+  intro cs cs' h
+  induction h with
+  | nil => intro is is' _; cases is <;> cases is' <;> rfl
+  | @cons c c' l l' hc _ ih =>
+    intro is is' hi
+    cases hi with
+    | nil => rfl
+    | @cons x x' r r' hx hr =>
+      obtain ⟨e, ns⟩ := x
+      obtain ⟨e', ns'⟩ := x'
+      simp only [tauBytes]
+      rw [map_enc_rel hc.o (proverTaus_rel hx.1 hx.2), ih hr]
+
+theorem cBytes_rel : ∀ {cs : List (CredIn G)} {cs' : List (CredIn G')},
+    List.Forall₂ (CredInRel R) cs cs' →
+    ∀ {is : List (EqInit G × List (NeInit G))} {is' : List (EqInit G' × List (NeInit G'))},
+    List.Forall₂ (InitRel R) is is' → cBytes cs is = cBytes cs' is' := by
+  intro cs cs' h
+  induction h with
+  | nil => intro is is' _; cases is <;> cases is' <;> rfl
+  | @cons c c' l l' hc _ ih =>
+    intro is is' hi
+    cases hi with
+    | nil => rfl
+    | @cons x x' r r' hx hr =>
+      obtain ⟨e, ns⟩ := x
+      obtain ⟨e', ns'⟩ := x'
+      simp only [cBytes]
+      rw [map_enc_rel hc.o (proverCList_rel hx.1 hx.2), ih hr]
+
+theorem finalizeAll_rel (c : Int) : ∀ {cs : List (CredIn G)} {cs' : List (CredIn G')},
+    List.Forall₂ (CredInRel R) cs cs' →
+    ∀ {is : List (EqInit G × List (NeInit G))} {is' : List (EqInit G' × List (NeInit G'))},
+    List.Forall₂ (InitRel R) is is' →
+      ORel (List.Forall₂ (SubProofRel R)) (finalizeAll c cs is) (finalizeAll c cs' is') := by
+  intro cs cs' h
+  induction h with
+  | nil =>
+    intro is is' hi
+    cases hi with
+    | nil => exact List.Forall₂.nil
+    | cons _ _ => simp [finalizeAll, ORel]
+  | @cons cr cr' l l' hc _ ih =>
+    intro is is' hi
+    cases hi with
+    | nil => simp [finalizeAll, ORel]
+    | @cons x x' r r' hx hr =>
+      obtain ⟨e, ns⟩ := x
+      obtain ⟨e', ns'⟩ := x'
+      simp only [finalizeAll]
+      rw [hc.unrevealed, hc.revealed, hc.vals]
+      refine ORel.bind (finalizeEqProof_rel hx.1 c _ _ _) fun eq eq' heq => ?_
+      refine ORel.bind (finalizePreds_rel c heq.m hx.2) fun nes nes' hnes => ?_
+      exact ORel.map (ih hr) fun t t' ht => List.Forall₂.cons ⟨heq, hnes, rfl, rfl⟩ ht
+
+/-- the model prover's multi-credential presentation is the same document in both groups -/
+theorem proveMulti_rel (H : List ByteArray → Int) (m : OvfMode)
+    (fourSq : Int → Outcome (List Int)) (common : List (String × Int))
+    {cs : List (CredIn G)} {cs' : List (CredIn G')} (h : List.Forall₂ (CredInRel R) cs cs')
+    (nonce : ByteArray) :
+    ORel (ProofRel R) (proveMulti H m fourSq common cs nonce)
+      (proveMulti H m fourSq common cs' nonce) := by
+  unfold proveMulti
+  refine ORel.bind (initAll_rel m fourSq common h) fun is is' hi => ?_
+  simp only
+  rw [tauBytes_rel h hi, cBytes_rel h hi]
+  exact ORel.map (finalizeAll_rel _ h hi) fun sps sps' hs => ⟨hs, rfl, rfl⟩
+
 end CL.Pri
